@@ -4,6 +4,7 @@ import flowpaths.abstractpathmodeldag as pathmodel
 import flowpaths.utils as utils
 import flowpaths.nodeexpandeddigraph as nedg
 import copy
+import math
 
 
 class kMinPathError(pathmodel.AbstractPathModelDAG):
@@ -257,6 +258,16 @@ class kMinPathError(pathmodel.AbstractPathModelDAG):
             utils.logger.error(f"{__name__}: Error scale factors are only allowed for integer weights.")
             raise ValueError("Error scale factors are only allowed for integer weights.")
 
+        # Bounds of the path slacks and of the slacks scaled by the path length factors: an error of at most
+        # self.w_max scaled by a factor below 1 needs a slack of self.w_max / factor, and the scaled slacks
+        # reach the largest factor times that
+        self.slack_ub = self.w_max
+        self.scaled_slack_ub = self.w_max
+        if len(self.path_length_factors) > 0:
+            smallest_factor = min([1] + [factor for factor in self.path_length_factors if factor > 0])
+            self.slack_ub = math.ceil(self.w_max / smallest_factor)
+            self.scaled_slack_ub = self.slack_ub * max(self.path_length_factors)
+
         self.pi_vars = {}
         self.path_weights_vars = {}
         self.path_slacks_vars = {}
@@ -330,7 +341,7 @@ class kMinPathError(pathmodel.AbstractPathModelDAG):
             self.path_indexes,
             name_prefix="slack",
             lb=0,
-            ub=self.w_max,
+            ub=self.slack_ub,
             var_type="integer" if self.weight_type == int else "continuous",
         )
         
@@ -341,7 +352,7 @@ class kMinPathError(pathmodel.AbstractPathModelDAG):
             self.edge_indexes,
             name_prefix="gamma",
             lb=0,
-            ub=self.w_max,
+            ub=self.scaled_slack_ub,
             var_type="continuous",
         )
 
@@ -371,7 +382,7 @@ class kMinPathError(pathmodel.AbstractPathModelDAG):
                 self.path_indexes,
                 name_prefix="scaled_slack",
                 lb=0,
-                ub=self.w_max * max(self.path_length_factors),
+                ub=self.scaled_slack_ub,
                 var_type="continuous",
             )
 
@@ -382,7 +393,7 @@ class kMinPathError(pathmodel.AbstractPathModelDAG):
                     continuous_var=self.slack_factors_vars[i],
                     product_var=self.scaled_slack_vars[i],
                     lb=0,
-                    ub=self.w_max * max(self.path_length_factors),
+                    ub=max(self.slack_ub, self.scaled_slack_ub),
                     name=f"scaled_slack_i{i}",
                 )
                         
@@ -438,7 +449,7 @@ class kMinPathError(pathmodel.AbstractPathModelDAG):
                         continuous_var=slack_var,
                         product_var=self.gamma_vars[(u, v, i)],
                         lb=0,
-                        ub=self.w_max,
+                        ub=self.scaled_slack_ub,
                         name=f"12_u={u}_v={v}_i={i}",
                     )
 
@@ -475,7 +486,7 @@ class kMinPathError(pathmodel.AbstractPathModelDAG):
             self.path_indexes,
             name_prefix="slack",
             lb=0,
-            ub=self.w_max,
+            ub=self.slack_ub,
             var_type="integer" if self.weight_type == int else "continuous",
         )
         
@@ -486,7 +497,7 @@ class kMinPathError(pathmodel.AbstractPathModelDAG):
             self.edge_indexes,
             name_prefix="gamma",
             lb=0,
-            ub=self.w_max,
+            ub=self.scaled_slack_ub,
             var_type="continuous",
         )
 
@@ -516,7 +527,7 @@ class kMinPathError(pathmodel.AbstractPathModelDAG):
                 self.path_indexes,
                 name_prefix="scaled_slack",
                 lb=0,
-                ub=self.w_max * max(self.path_length_factors),
+                ub=self.scaled_slack_ub,
                 var_type="continuous",
             )
 
@@ -527,7 +538,7 @@ class kMinPathError(pathmodel.AbstractPathModelDAG):
                     continuous_var=self.slack_factors_vars[i],
                     product_var=self.scaled_slack_vars[i],
                     lb=0,
-                    ub=self.w_max * max(self.path_length_factors),
+                    ub=max(self.slack_ub, self.scaled_slack_ub),
                     name=f"scaled_slack_i{i}",
                 )
                         
@@ -550,7 +561,7 @@ class kMinPathError(pathmodel.AbstractPathModelDAG):
                     continuous_var=slack_var,
                     product_var=self.gamma_vars[(u, v, i)],
                     lb=0,
-                    ub=self.w_max,
+                    ub=self.scaled_slack_ub,
                     name=f"12_u={u}_v={v}_i={i}",
                 )
 
